@@ -225,6 +225,14 @@ def _recursion_signature(exc):
 
 
 def run_problem(problem, kind, time_limit=20.0, resolver_kwds=None, trace=False):
+    """see _run_problem; a timer that fires while a result is being assembled also counts as a timeout"""
+    try:
+        return _run_problem(problem, kind, time_limit, resolver_kwds, trace)
+    except ResolveTimeout:
+        return {"status": "timeout", "phase": "resolve", "ops": None, "exc": None, "where": None, "trace": None}
+
+
+def _run_problem(problem, kind, time_limit=20.0, resolver_kwds=None, trace=False):
     """Returns {"status": "success"|"failure"|"crash"|"timeout", "phase": ..., "ops": [...], "exc": ..., "where": [...],
     "trace": [...]|None}"""
     global _TRACE
@@ -262,6 +270,7 @@ def run_problem(problem, kind, time_limit=20.0, resolver_kwds=None, trace=False)
             out["status"] = "timeout"
             return out
         except RecursionError as e:
+            signal.setitimer(signal.ITIMER_REAL, 0)
             out.update(status="crash", exc="RecursionError", where=_short_tb())
             try:
                 out["recursion"] = _recursion_signature(e)
@@ -269,8 +278,10 @@ def run_problem(problem, kind, time_limit=20.0, resolver_kwds=None, trace=False)
                 out["recursion"] = {"error": repr(e2)}
             return out
         except Exception as e:
+            signal.setitimer(signal.ITIMER_REAL, 0)
             out.update(status="crash", exc="%s: %s" % (type(e).__name__, str(e)[:300]), where=_short_tb())
             return out
+        signal.setitimer(signal.ITIMER_REAL, 0)
         out["ops"] = ops
         out["status"] = "failure" if ret else "success"
         if trace:
